@@ -76,6 +76,11 @@ Bounded == TC!Bounded
 \* Only meaningful when record_sent is called by the producer alone.
 ProducerBound == AdversarySent \/ (TC!InFlight <= window \/ TC!InFlight <= plen)
 
+\* refinement: the credit fragment of every step is a step of CreditInd.tla, whose invariant Apalache proves
+\* inductively for all integers (meaningful in the producer configurations: the adversary does not call record_sent)
+CI == INSTANCE CreditInd WITH cancelled <- (cancelled # <<>>)
+RefinesCredit == [][CI!NextIn(Files, Offsets, ChunkLens)]_(CI!vars)
+
 StepProps == [][ /\ TC!CancelStickyStep /\ TC!AckNoReleaseStep /\ TC!AckMonotoneStep /\ TC!GrantSoundStep
                  /\ TC!CancelReportedStep /\ TC!ResumeGaplessStep /\ TC!ResumeOnlyCurrentStep
                  /\ TC!AdvanceClearsStep /\ TC!KeepsNewestStep ]_vars
